@@ -124,7 +124,7 @@ def sparse_script(script, steps):
 def vi_history(R):
     lines = gen.rand_buffer(R, 'ltr', 8, allow_empty=False)
     steps = []
-    keys = b':w! dinit\n'
+    keys = R.choice([b'', b'', b':se ru=0\n', b':se ru=2\n', b':se ru=4\n', b':se noai\n']) + b':w! dinit\n'
     for k in range(R.randint(5, 30)):
         x = R.random()
         if x < 0.55 or not steps:
@@ -274,6 +274,31 @@ def two_buffer_history(args):
     return ('ok', None, wit, n)
 
 
+def seq_wrap_case(args):
+    """two edits separated by exactly K commands that change nothing, for every K around 0, 128, 256 and 512 and every ruler
+    setting: one undo takes back the second edit only (undo steps are told apart by a per-command sequence number)"""
+    vi, mode, K, ru = args
+    text = b'abcdefghijklmnopqrstuvwxyz\n' * 3
+    if mode == 'ex':
+        script = b'1s/^/A/\n' + b'2k a\n' * K + b'2s/^/B/\nu\nw! out\n'
+        r, d = common.run_ex(vi, script, files={'f1': text}, timeout=60)
+        want = b'A' + text
+    else:
+        pad = (b'lh' * (K // 2 + 1))[:K]
+        script = (b':se ru=%d\n' % ru) + b'x' + pad + b'jx' + b'u:w! out\n'
+        r, d = common.run_vi(vi, script, files={'f1': text}, timeout=60)
+        want = text[1:]
+    got = common.readf(d, 'out')
+    common.rmcase(d)
+    wit = {'mode': mode, 'K': K, 'ru': ru, 'script': script}
+    if r.timed_out or common.san_report(r) or got is None:
+        return ('inconclusive', None, wit)
+    if got != want:
+        return ('violation', ('undo:grouping', '%s mode%s: edit, %d commands that change nothing, edit, u: text is %r, expected %r (only the second edit undone)' % (
+            mode, '' if mode == 'ex' else ' ru=%d' % ru, K, common.show(got, 60), common.show(want, 60))), wit)
+    return ('ok', None, wit)
+
+
 def run(tier, V):
     exe = build('asan', probe=PROBE)
     vi = build('asan')
@@ -320,12 +345,21 @@ def run(tier, V):
         elif status == 'inconclusive':
             V.inconclusive += 1
     nchk += tbchk
-    cov = {'two_buffer_histories': ntb, 'two_buffer_undo_redo_checked': tbchk, 'probe': tot, 'probe_depth': depth, 'probe_ops': ['edit[%d,%d)<-%r' % (b, e, t) if k == 0 else ['', 'newcmd', 'undo', 'redo'][k] for k, b, e, t in OPS],
+    Ks = list(range(0, 4)) + list(range(120, 136)) + list(range(248, 262)) + list(range(504, 518)) + ([] if tier == 'quick' else list(range(760, 774)) + list(range(1016, 1030)))
+    swjobs = [(vi, 'ex', K, 1) for K in Ks] + [(vi, 'vi', K, ru) for K in Ks for ru in (0, 1, 2, 4)]
+    for status, info, wit in pmap(seq_wrap_case, swjobs):
+        if status == 'violation':
+            V.violation('binary:%s:%s' % (wit['mode'], info[0]), info[1], wit)
+        elif status == 'inconclusive':
+            V.inconclusive += 1
+        else:
+            nchk += 1
+    cov = {'sequence_wrap_cases': len(swjobs), 'two_buffer_histories': ntb, 'two_buffer_undo_redo_checked': tbchk, 'probe': tot, 'probe_depth': depth, 'probe_ops': ['edit[%d,%d)<-%r' % (b, e, t) if k == 0 else ['', 'newcmd', 'undo', 'redo'][k] for k, b, e, t in OPS],
            'binary_histories': len(hres), 'binary_undo_redo_checked': nchk, 'binary_histories_fully_checked': nfull, 'binary_history_cuts': cuts,
            'evaluations': tot.get('nseq', 0) + len(hres), 'distinct_nontrivial': tot.get('nundo', 0) + tot.get('nredo', 0) + nchk, 'exhaustive': True,
            'rule': ('probe: ALL sequences of length %d over 9 operations (6 splices, new-command, undo, redo) on buffers of 0..3 lines, text compared with a snapshot-stack model after every op '
                     '(lbuf_edit/lbuf_undo/lbuf_redo/lbuf_modified), plus in quick a 1/16 slice of length %d; real binary: %d random ex and %d random vi histories of 5-30 steps mixing single edits, counted '
-                    'commands, :g, :s, filters, multi-line inserts, J, puts, compound lines with u/redo/^R walks past both ends, dump after every step, stack built from observed texts; + two-buffer ex histories whose command lines edit and switch buffers (one undo step per line and buffer).  '
+                    'commands, :g, :s, filters, multi-line inserts, J, puts, compound lines with u/redo/^R walks past both ends, dump after every step, stack built from observed texts; + two-buffer ex histories whose command lines edit and switch buffers (one undo step per line and buffer); + edit / K neutral commands / edit / u for every K around 0, 128, 256, 512 in ex and in vi with ru=0,1,2,4.  '
                     'non-trivial = an undo or redo whose resulting text was compared.' % (depth, depth + 1, nh, nh)),
            'samples': samples or [{'note': 'no history reached 3 checks'}]}
     assumptions = ['an undo step is the set of splices between two lbuf_modified() calls (what ex_command()/vi() do once per top-level command)',
